@@ -42,6 +42,11 @@ def gen_cases(tier, seed):
         s = stable_hash(seed, "C11", "nb-degenerate", i) | 32        # (bit 5 set: coinciding labelled rows)
         cases.append({"clf": "sk_nb_default", "seed": s, "regime": ["half", "random"][i % 2], "ckind": CLASS_KINDS[i % 3], "K": 3,
                       "weights": False, "cost": False, "partial": bool(i % 4 == 3)})
+    # an estimator without predict_proba: after a fit that cannot train it (no label / one class) predict still answers with
+    # members of classes_
+    for i in range({"quick": 8, "thorough": 100}[tier]):
+        cases.append({"clf": "noproba", "seed": stable_hash(seed, "C11", "noproba", i), "regime": ["cold", "oneclass"][i % 2],
+                      "ckind": CLASS_KINDS[i % 3], "K": 2 + i % 2, "weights": False, "cost": False, "partial": False})
     for k, c in enumerate(cases):
         c["id"] = "%s-%04d" % (c["clf"], k)
     return cases
@@ -96,8 +101,45 @@ def _delegation_judgeable(clf, Q):
     return True
 
 
+def _run_noproba(desc):
+    from sklearn.svm import LinearSVC
+    from sklearn.linear_model import Perceptron
+    from skactiveml.classifier import SklearnClassifier
+    rng = gen.rng_for("c11np", desc["seed"])
+    K = desc["K"]
+    classes, ml, dt = _classes(desc["ckind"], K)
+    n = int(rng.randint(2, 9))
+    X = np.round(rng.randn(n, 2), 3)
+    y = np.empty(n, dtype=dt)
+    for i in range(n):
+        y[i] = ml
+    if desc["regime"] == "oneclass":
+        y[0] = classes[int(rng.randint(K))]
+    est = LinearSVC(random_state=0) if desc["seed"] % 2 else Perceptron(random_state=0)
+    clf = SklearnClassifier(est, classes=list(classes), missing_label=ml, random_state=int(desc["seed"] % 1000))
+    comp = "SklearnClassifier(%s)" % type(est).__name__
+    viol = []
+    import warnings as _w
+    try:
+        with _w.catch_warnings():
+            _w.simplefilter("ignore")
+            pred = np.asarray(clf.fit(X, y).predict(X))
+        contracts.count("C11.predict-decision-contract")
+        contracts.count("C11.predict_proba-contract", 0)
+        if pred.shape != (n,) or not all(p in list(classes) for p in pred.tolist()):
+            viol.append({"component": comp, "kind": "predict-not-a-class", "trigger": "any", "detail": "%r vs classes %r" % (pred.tolist(), classes)})
+    except Exception as ex:
+        viol.append({"component": comp, "kind": "predict-raises:%s" % type(ex).__name__, "trigger": "any",
+                     "detail": "estimator without predict_proba, regime=%s: %s" % (desc["regime"], str(ex)[:150])})
+    return {"status": "ok", "violations": viol, "nontrivial": True, "nt_key": "noproba|%s|%d" % (desc["regime"], desc["seed"] % 9973),
+            "cells": ["regime=%s" % desc["regime"]], "monitors": contracts.drain_evals(),
+            "observed": {"clf": comp, "regime": desc["regime"]}}
+
+
 def run_case(desc):
     steps.install()
+    if desc["clf"] == "noproba":
+        return _run_noproba(desc)
     rng = gen.rng_for("c11", desc["seed"])
     name = desc["clf"]
     factory, multi, own_proba = models.CLASSIFIERS[name]
